@@ -23,8 +23,8 @@ func init() {
 			"Piecewise knot values compared within 4 ulp of max(|y0|,|y1|); interpolant within 1e-12 relative",
 		},
 		Workloads: []core.Workload{
-			{Name: "findroot", Variant: "plain", N: core.Tiered(3000, 200000), Run: c18Root},
-			{Name: "piecewise", Variant: "plain", N: core.Tiered(600, 40000), Run: c18Piecewise},
+			{Name: "findroot", Variant: "plain", N: core.Tiered(3000, 1000000), Run: c18Root},
+			{Name: "piecewise", Variant: "plain", N: core.Tiered(600, 150000), Run: c18Piecewise},
 		},
 		RequireTags: func(string) []string { return []string{"root:converged", "root:budget-exhausted", "pw:outside", "pw:nan", "pw:knot"} },
 	})
